@@ -48,8 +48,8 @@ Proof. destruct a, b; cbn; congruence. Qed.
 
 Lemma ustate_eqb_eq a b : ustate_eqb a b = true -> a = b.
 Proof.
-  unfold ustate_eqb. rewrite !andb_true_iff. intros ((((((((H1 & H2) & H3) & H4) & H5) & H6) & H7) & H8) & H9).
-  apply Nat.eqb_eq in H1, H2, H3, H5, H8, H9. apply eqb_prop in H4, H6, H7.
+  unfold ustate_eqb. rewrite !andb_true_iff. intros (((((((((H1 & H2) & H3) & H4) & H5) & H6) & H7) & H7') & H8) & H9).
+  apply Nat.eqb_eq in H1, H2, H3, H5, H8, H9. apply eqb_prop in H4, H6, H7, H7'.
   apply wpc_n_inj in H1. apply hpc_n_inj in H2. apply pst_n_inj in H3. apply tmr_n_inj in H5.
   destruct a, b. cbn in *. congruence.
 Qed.
@@ -76,10 +76,10 @@ Proof.
 Qed.
 
 Lemma closed_reach p : closed p (reach p) = true.
-Proof. destruct p as [[] [] [] []]; vm_compute; reflexivity. Qed.
+Proof. destruct p as [[] [] [] [] []]; vm_compute; reflexivity. Qed.
 
 Lemma good_reach p : forallb (ugood p) (reach p) = true.
-Proof. destruct p as [[] [] [] []]; vm_compute; reflexivity. Qed.
+Proof. destruct p as [[] [] [] [] []]; vm_compute; reflexivity. Qed.
 
 (* all interleavings of waiter, helper, process, context and timer, for every kind of process
    and kill delay: every reachable state is good *)
@@ -133,35 +133,54 @@ Qed.
 Lemma rank_le_9 s : rank s <= 9.
 Proof. unfold rank. destruct (uw s), (uh s); lia. Qed.
 
-(* attribution: waitOrStop returns the context's error exactly when Signal(interrupt) returned
-   nil, i.e. the interrupt path was taken and Wait had not yet reaped the process; otherwise it
-   returns Wait's own result *)
+(* attribution: waitOrStop returns Wait's own result exactly when no signal was sent (the select sent
+   nil, or Signal answered os.ErrProcessDone because Wait had already reaped the process); it returns
+   the context's error when Signal(interrupt) returned nil, and also when Signal failed but the waiter
+   took the value from the second select; after a failed Signal the final send carries Signal's error *)
 Lemma attribution p s : reachable p s ->
-  (uw s = WDoneCtx -> uintr s = true /\ uctx s = true) /\ (uw s = WDoneWait -> uintr s = false).
+  (uw s = WDoneCtx -> (uintr s = true \/ usigerr s = true) /\ uctx s = true) /\
+  (uw s = WDoneWait -> uintr s = false /\ usigerr s = false) /\
+  (uw s = WDoneSig -> usigerr s = true /\ uctx s = true) /\
+  (sig_fails p = false -> usigerr s = false).
 Proof.
-  intro R. pose proof (reachable_good p s R) as H. split_good H. split; intro E; rewrite E in G7.
-  - now apply andb_true_iff.
-  - now apply negb_true_iff.
+  intro R. pose proof (reachable_good p s R) as H. split_good H.
+  split; [|split; [|split]].
+  - intro E. rewrite E in G7. apply andb_true_iff in G7 as [G7a G7b]. split; [now apply orb_true_iff | exact G7b].
+  - intro E. rewrite E in G7. apply andb_true_iff in G7 as [G7a G7b]. split; now apply negb_true_iff.
+  - intro E. rewrite E in G7. now apply andb_true_iff in G7.
+  - intro Hf. destruct (usigerr s) eqn:E; [|reflexivity]. rewrite orb_true_r in G9. cbn in G9.
+    rewrite !andb_true_iff in G9. destruct G9 as (_ & G9). rewrite Hf in G9. discriminate.
 Qed.
 
 Lemma kill_only_after_interrupt p s : reachable p s -> ukil s = true ->
-  kd_pos p = true /\ uintr s = true /\ utm s = TFired.
+  kd_pos p = true /\ (uintr s = true \/ usigerr s = true) /\ utm s = TFired.
 Proof.
   intros R E. pose proof (reachable_good p s R) as H. split_good H. rewrite E in G8. cbn in G8.
   apply andb_true_iff in G8 as [G8 G8c]. apply andb_true_iff in G8 as [G8a G8b].
-  repeat split; try assumption. destruct (utm s); congruence.
+  split; [assumption|]. split; [now apply orb_true_iff|]. destruct (utm s); congruence.
 Qed.
 
-Lemma no_signal_before_ctx p s : reachable p s -> uintr s = true -> uctx s = true /\ has_ctx p = true.
+Lemma no_signal_before_ctx p s : reachable p s -> (uintr s = true \/ usigerr s = true) ->
+  uctx s = true /\ has_ctx p = true.
 Proof.
-  intros R E. pose proof (reachable_good p s R) as H. split_good H. rewrite E in G9. cbn in G9. now apply andb_true_iff.
+  intros R E. pose proof (reachable_good p s R) as H. split_good H.
+  assert (X : (uintr s || usigerr s) = true) by (now apply orb_true_iff). rewrite X in G9. cbn in G9.
+  rewrite !andb_true_iff in G9. tauto.
 Qed.
 
 Example reachable_example :
   (* a process that ignores the interrupt: context fires, signal, timer, kill, exit, both return *)
-  uexec {| has_ctx := true; kd_pos := true; self_exit := false; int_exit := false |}
+  uexec {| has_ctx := true; kd_pos := true; self_exit := false; int_exit := false; sig_fails := false |}
         [LCtxFire; LSelCtx; LSignal; LArm; LTimerFire; LSelTimer; LKill; LKillExit; LWaitRet; LRendezvous] uinit
-  = Some {| uw := WDoneCtx; uh := HDone; upr := PReaped; uctx := true; utm := TFired; uintr := true; ukil := true; usent := 1; urecv := 1 |}.
+  = Some {| uw := WDoneCtx; uh := HDone; upr := PReaped; uctx := true; utm := TFired; uintr := true; ukil := true; usigerr := false; usent := 1; urecv := 1 |}.
+Proof. reflexivity. Qed.
+
+Example signal_error_example :
+  (* Signal fails (say EPERM): no interrupt is delivered, the timer still runs, Kill is sent, and the
+     error returned is Signal's *)
+  uexec {| has_ctx := true; kd_pos := true; self_exit := false; int_exit := false; sig_fails := true |}
+        [LCtxFire; LSelCtx; LSignal; LArm; LTimerFire; LSelTimer; LKill; LKillExit; LWaitRet; LRendezvous] uinit
+  = Some {| uw := WDoneSig; uh := HDone; upr := PReaped; uctx := true; utm := TFired; uintr := false; ukil := true; usigerr := true; usent := 1; urecv := 1 |}.
 Proof. reflexivity. Qed.
 
 Lemma uexec_reachable p ls : forall s s', reachable p s -> uexec p ls s = Some s' -> reachable p s'.
@@ -281,17 +300,17 @@ Lemma path_reaped u : self_exit u = true -> has_ctx u = true ->
   exists s, uexec u [LSelfExit; LWaitRet; LCtxFire; LSelCtx; LSignal; LRendezvous] uinit = Some s /\ done_wait s.
 Proof. intros H1 H2. cbn. rewrite H1. cbn. rewrite H2. cbn. eexists. split; [reflexivity|]. now split. Qed.
 
-Lemma path_nokill u l : has_ctx u = true -> exit_ok u l = true ->
+Lemma path_nokill u l : has_ctx u = true -> sig_fails u = false -> exit_ok u l = true ->
   exists s, uexec u ([LCtxFire; LSelCtx; LSignal; LArm] ++ [l; LWaitRet; LRendezvous]) uinit = Some s /\ done_ctx s.
 Proof.
-  intros H1 H2. destruct u as [hc kp se ie]. cbn in H1. subst hc.
+  intros H1 Hs H2. destruct u as [hc kp se ie sf]. cbn in H1, Hs. subst hc sf.
   destruct l; cbn in H2; try discriminate; subst; destruct kp; cbn; eexists; (split; [reflexivity|]); now split.
 Qed.
 
-Lemma path_kill u l : has_ctx u = true -> kd_pos u = true -> (exit_ok u l = true \/ l = LKillExit) ->
+Lemma path_kill u l : has_ctx u = true -> sig_fails u = false -> kd_pos u = true -> (exit_ok u l = true \/ l = LKillExit) ->
   exists s, uexec u ([LCtxFire; LSelCtx; LSignal; LArm] ++ [LTimerFire; LSelTimer; LKill; l; LWaitRet; LRendezvous]) uinit = Some s /\ done_ctx s.
 Proof.
-  intros H1 H2 H3. destruct u as [hc kp se ie]. cbn in H1, H2. subst hc kp.
+  intros H1 Hs H2 H3. destruct u as [hc kp se ie sf]. cbn in H1, Hs, H2. subst hc kp sf.
   destruct H3 as [H3| ->]; [destruct l; cbn in H3; try discriminate; subst|]; cbn; eexists; (split; [reflexivity|]); now split.
 Qed.
 
@@ -345,22 +364,22 @@ Proof.
         - apply min_opt_some in Hx. destruct Hx as [Hx|Hx]; [now left | right]. destruct (tI p); [discriminate | now contradiction Hx]. }
       destruct (tK p <=? 0) eqn:EK.
       * destruct ex1 as [x|] eqn:Ex1; cbn [option_map res trace] in *; [|congruence].
-        destruct (path_nokill _ _ HC (EX x eq_refl)) as (s & E & W & Hh). eauto.
+        destruct (path_nokill _ _ HC eq_refl (EX x eq_refl)) as (s & E & W & Hh). eauto.
       * assert (KP : kd_pos (uparams_of p) = true) by (cbn; apply Z.ltb_lt; apply Z.leb_gt in EK; lia).
         destruct (decide_first (option_map (fun x => x + dw o) ex1) (Some (ti + da o + tK p + dt o)) (tie3 o)) as [|tw|tf] eqn:D2;
           cbn [res trace] in *.
         -- destruct ex1 as [x|] eqn:Ex1.
            ++ destruct (x <=? ti + da o + tK p + dt o + dk o).
-              ** destruct (path_kill _ _ HC KP (or_introl (EX x eq_refl))) as (s & E & W & Hh). eauto.
-              ** destruct (path_kill _ LKillExit HC KP (or_intror eq_refl)) as (s & E & W & Hh). eauto.
-           ++ destruct (path_kill _ LKillExit HC KP (or_intror eq_refl)) as (s & E & W & Hh). eauto.
+              ** destruct (path_kill _ _ HC eq_refl KP (or_introl (EX x eq_refl))) as (s & E & W & Hh). eauto.
+              ** destruct (path_kill _ LKillExit HC eq_refl KP (or_intror eq_refl)) as (s & E & W & Hh). eauto.
+           ++ destruct (path_kill _ LKillExit HC eq_refl KP (or_intror eq_refl)) as (s & E & W & Hh). eauto.
         -- apply decide_first_FA in D2. destruct ex1 as [x|] eqn:Ex1; [|now contradiction D2].
-           destruct (path_nokill _ _ HC (EX x eq_refl)) as (s & E & W & Hh). eauto.
+           destruct (path_nokill _ _ HC eq_refl (EX x eq_refl)) as (s & E & W & Hh). eauto.
         -- destruct ex1 as [x|] eqn:Ex1.
            ++ destruct (x <=? ti + da o + tK p + dt o + dk o).
-              ** destruct (path_kill _ _ HC KP (or_introl (EX x eq_refl))) as (s & E & W & Hh). eauto.
-              ** destruct (path_kill _ LKillExit HC KP (or_intror eq_refl)) as (s & E & W & Hh). eauto.
-           ++ destruct (path_kill _ LKillExit HC KP (or_intror eq_refl)) as (s & E & W & Hh). eauto.
+              ** destruct (path_kill _ _ HC eq_refl KP (or_introl (EX x eq_refl))) as (s & E & W & Hh). eauto.
+              ** destruct (path_kill _ LKillExit HC eq_refl KP (or_intror eq_refl)) as (s & E & W & Hh). eauto.
+           ++ destruct (path_kill _ LKillExit HC eq_refl KP (or_intror eq_refl)) as (s & E & W & Hh). eauto.
 Qed.
 End T2.
 
